@@ -53,6 +53,7 @@ package jp
 //@   opt mergegoals = true
 //@   region nthAny = case Nth > case []any
 //@     let i0 = i
+//@     let n = len(tv)
 //@     let has0 = has
 //@     let v0 = v
 //@     assert [C05 C11 nth] spec.NormIndex(i0, len(tv)) >= 0 ==> has && v == tv[spec.NormIndex(i0, len(tv))]
@@ -65,6 +66,7 @@ package jp
 //@     parent sliceTop
 //@     let start0 = start
 //@     let end0 = end
+//@     let step0 = step
 //@     let n = len(tv)
 //@     let lo = spec.SliceLo(start, len(tv))
 //@     let hi = spec.SliceHi(end, len(tv))
@@ -109,6 +111,7 @@ package jp
 //@     parent sliceTop
 //@     let start0 = start
 //@     let end0 = end
+//@     let step0 = step
 //@     let n = len(tv)
 //@     let lo = spec.SliceLo(start, len(tv))
 //@     let hi = spec.SliceHi(end, len(tv))
@@ -154,12 +157,14 @@ package jp
 //@   region unionIdxLast = case Union > case int64 > case []any
 //@     parent unionTop
 //@     let i0 = i
+//@     let n = len(tv)
 //@     let v0 = v
 //@     assume [C05 C11 union-reset] !has
 //@     assert [C05 C11 union-idx] has == (spec.NormIndex(i0, len(tv)) >= 0) && (has ==> v == tv[spec.NormIndex(i0, len(tv))]) && (!has ==> v == v0)
 //@   region unionIdxInner = case Union > case int64#1 > case []any
 //@     parent unionTop
 //@     let i0 = i
+//@     let n = len(tv)
 //@     let v0 = v
 //@     assume [C05 C11 union-reset] !has
 //@     assert [C05 C11 union-idx] has == (spec.NormIndex(i0, len(tv)) >= 0) && (has ==> v == tv[spec.NormIndex(i0, len(tv))]) && (!has ==> v == v0)
@@ -169,6 +174,7 @@ package jp
 // point with Get (C11).
 //@   region nthGenArray = case Nth > case gen.Array
 //@     let i0 = i
+//@     let n = len(tv)
 //@     let has0 = has
 //@     let v0 = v
 //@     assert [C05 C11 nth] spec.NormIndex(i0, len(tv)) >= 0 ==> has && v == tv[spec.NormIndex(i0, len(tv))]
@@ -179,12 +185,14 @@ package jp
 //@   opt mergegoals = true
 //@   region nthAny = case Nth > case []any
 //@     let i0 = i
+//@     let n = len(tv)
 //@     let has0 = has
 //@     let v0 = v
 //@     assert [C11 nth] spec.NormIndex(i0, len(tv)) >= 0 ==> has && v == tv[spec.NormIndex(i0, len(tv))]
 //@     assert [C11 nth] spec.NormIndex(i0, len(tv)) < 0 ==> has == has0 && v == v0
 //@   region nthGenArray = case Nth > case gen.Array
 //@     let i0 = i
+//@     let n = len(tv)
 //@     let has0 = has
 //@     let v0 = v
 //@     assert [C11 nth] spec.NormIndex(i0, len(tv)) >= 0 ==> has && v == tv[spec.NormIndex(i0, len(tv))]
@@ -195,12 +203,14 @@ package jp
 //@   opt mergegoals = true
 //@   region nthAny = case Nth > case []any
 //@     let i0 = i
+//@     let n = len(tv)
 //@     let has0 = has
 //@     let v0 = v
 //@     assert [C11 nth] spec.NormIndex(i0, len(tv)) >= 0 ==> has && v == tv[spec.NormIndex(i0, len(tv))]
 //@     assert [C11 nth] spec.NormIndex(i0, len(tv)) < 0 ==> has == has0 && v == v0
 //@   region nthGenArray = case Nth > case gen.Array
 //@     let i0 = i
+//@     let n = len(tv)
 //@     let has0 = has
 //@     let v0 = v
 //@     assert [C11 nth] spec.NormIndex(i0, len(tv)) >= 0 ==> has && v == tv[spec.NormIndex(i0, len(tv))]
@@ -260,29 +270,47 @@ package jp
 // Operator cells: the truth value written to sstack[i] for the operands left = sstack[i+1], right = sstack[i+2]
 // (the entry assumption is an obligation of the whole-function pass, where the loop invariant provides it).
 //@   region opEq = case eq.code
+//@     let l0 = left
+//@     let r0 = right
 //@     assume 0 <= i && i < len(sstack)
 //@     assert [C12 eq] isbool(sstack[i]) && anybool(sstack[i]) == CmpEq(left, right)
 //@   region opNeq = case neq.code
+//@     let l0 = left
+//@     let r0 = right
 //@     assume 0 <= i && i < len(sstack)
 //@     assert [C12 neq] isbool(sstack[i]) && anybool(sstack[i]) == !CmpEq(left, right)
 //@   region opLt = case lt.code
+//@     let l0 = left
+//@     let r0 = right
 //@     assume 0 <= i && i < len(sstack)
 //@     assert [C12 lt] isbool(sstack[i]) && anybool(sstack[i]) == CmpLt(left, right)
 //@   region opGt = case gt.code
+//@     let l0 = left
+//@     let r0 = right
 //@     assume 0 <= i && i < len(sstack)
 //@     assert [C12 gt] isbool(sstack[i]) && anybool(sstack[i]) == CmpLt(right, left)
 //@   region opLte = case lte.code
+//@     let l0 = left
+//@     let r0 = right
 //@     assume 0 <= i && i < len(sstack)
 //@     assert [C12 lte] isbool(sstack[i]) && anybool(sstack[i]) == CmpLe(left, right)
 //@   region opGte = case gte.code
+//@     let l0 = left
+//@     let r0 = right
 //@     assume 0 <= i && i < len(sstack)
 //@     assert [C12 gte] isbool(sstack[i]) && anybool(sstack[i]) == CmpLe(right, left)
 //@   region opOr = case or.code
+//@     let l0 = left
+//@     let r0 = right
 //@     assume 0 <= i && i < len(sstack)
 //@     assert [C12 or] isbool(sstack[i]) && anybool(sstack[i]) == (Truthy(left) || Truthy(right))
 //@   region opAnd = case and.code
+//@     let l0 = left
+//@     let r0 = right
 //@     assume 0 <= i && i < len(sstack)
 //@     assert [C12 and] isbool(sstack[i]) && anybool(sstack[i]) == (Truthy(left) && Truthy(right))
 //@   region opNot = case not.code
+//@     let l0 = left
+//@     let r0 = right
 //@     assume 0 <= i && i < len(sstack)
 //@     assert [C12 not] isbool(sstack[i]) && anybool(sstack[i]) == !Truthy(left)
